@@ -37,6 +37,21 @@ def enabled():
 
 
 def match(exp, obs, step=None, rec=None, prev=None):
+    why = regular(exp, obs)
+    alt = exp.get("alt")
+    if why and alt and (rec or {}).get("dbg", {}).get("fired") and (obs.get("ret") == "refused" or exp["ret"] == "any"):
+        # the injected allocation failure struck: TLC's expectation for the failed outcome (everything reads as before);
+        # the model state went on with the regular outcome, the rest of the behaviour is not comparable
+        for k in ("vals", "refs"):
+            if obs.get(k) != alt[k]:
+                return "%s: expected %s after the failed call, observed %s" % (k, json.dumps(alt[k])[:300], json.dumps(obs.get(k))[:300])
+        if obs.get("under") != 0:
+            return "under: expected 0, observed %s" % obs.get("under")
+        return vlib.STOP
+    return why
+
+
+def regular(exp, obs):
     for k in KEYS:
         if obs.get(k) != exp[k]:
             return "%s: expected %s, observed %s" % (k, json.dumps(exp[k])[:300], json.dumps(obs.get(k))[:300])
@@ -116,11 +131,11 @@ _BUILT = {}
 
 
 def build_seam():
-    """drv/alloc_seam.c (the repository's buffer_alloc.c) compiled as C for the C++ driver (own object file)."""
+    """drv/containers_seam.c (the repository's buffer_alloc.c and identifier.c with failure injection) compiled as C."""
     odir = vlib.ensure(os.path.join(vlib.WORK, "drv-" + vlib.repo_key()))
-    obj = os.path.join(odir, "alloc_seam_x05.o")
+    obj = os.path.join(odir, "containers_seam.o")
     cmd = ["clang"] + vlib.SAN_FLAGS.split() + ["-c", "-I" + vlib.DRV] + ["-I" + os.path.join(vlib.REPO, i) for i in vlib.INCLUDES]
-    cmd += [os.path.join(vlib.DRV, "alloc_seam.c"), "-o", obj + ".tmp%d" % os.getpid()]
+    cmd += [os.path.join(vlib.DRV, "containers_seam.c"), "-o", obj + ".tmp%d" % os.getpid()]
     r = subprocess.run(cmd, stdout=subprocess.PIPE, stderr=subprocess.STDOUT, text=True)
     if r.returncode:
         raise vlib.MachineryError("seam build failed:\n" + r.stdout[-3000:])
@@ -204,6 +219,7 @@ def do_gen(cfgname):
 # binding B: seeded call sequences (inputs only)
 # --------------------------------------------------------------------------
 NH, NO, NN = 4, 4, 5
+HEAP_NAMES = (2, 5)
 
 
 def gen_history(rng, kind, steps):
@@ -215,6 +231,16 @@ def gen_history(rng, kind, steps):
 
     def obj():
         return rng.choice([0] + list(range(1, NO + 1)) * 2)
+
+    def fail():
+        """which allocation of the call is made to fail (0: none)"""
+        return rng.choice([0, 0, 0, 0, 1, 1, 2])
+
+    def name(f=0, long_ok=False):
+        """name index; 99 = a name too long to be stored; names 2 and 5 need storage of their own"""
+        if long_ok and rng.random() < 0.15:
+            return 99
+        return rng.choice([n for n in range(0, NN + 1) if not (f and n in HEAP_NAMES)])
 
     for _ in range(steps):
         h = rng.randrange(NH)
@@ -231,7 +257,7 @@ def gen_history(rng, kind, steps):
         if kind == "ref":
             op = rng.choice(["rinsert"] * 4 + ["rset"] * 3 + ["rclear", "rclear", "rcompact", "count", "resize", "reserve", "ctor"])
             if op == "rinsert":
-                beh.append({"a": op, "arg": {"h": h + 1, "pos": pos(h), "o": obj()}})
+                beh.append({"a": op, "arg": {"h": h + 1, "pos": pos(h), "o": obj(), "f": fail()}})
                 est[h] += 1
             elif op == "rset":
                 beh.append({"a": op, "arg": {"h": h + 1, "pos": pos(h), "o": obj()}})
@@ -243,7 +269,7 @@ def gen_history(rng, kind, steps):
                 beh.append({"a": op, "arg": {"h": h + 1, "len": rng.choice([-1, 0, 1, 3, 9])}})
             elif op == "resize":
                 k = rng.choice([0, 1, est[h], max(0, est[h] - 1), est[h] + 2, rng.randrange(0, 20)])
-                beh.append({"a": op, "arg": {"h": h + 1, "len": k}})
+                beh.append({"a": op, "arg": {"h": h + 1, "len": k, "f": fail()}})
                 est[h] = k
             else:
                 beh.append({"a": op, "arg": {"h": h + 1, "len": rng.choice([-1, -2, 0, est[h], est[h] + 3, 17])}})
@@ -251,13 +277,14 @@ def gen_history(rng, kind, steps):
             op = rng.choice(["iappend"] * 4 + ["iinsert", "iset", "iset", "ielem", "ielem", "icompact", "icompact", "count",
                                               "resize", "reserve", "ctor"])
             if op == "iappend":
-                beh.append({"a": op, "arg": {"h": h + 1, "o": obj(), "n": rng.randrange(0, NN + 1)}})
+                beh.append({"a": op, "arg": {"h": h + 1, "o": obj(), "n": name(long_ok=True), "f": fail()}})
                 est[h] += 1
             elif op == "iinsert":
-                beh.append({"a": op, "arg": {"h": h + 1, "pos": pos(h)}})
+                beh.append({"a": op, "arg": {"h": h + 1, "pos": pos(h), "f": fail()}})
                 est[h] += 1
             elif op == "iset":
-                beh.append({"a": op, "arg": {"h": h + 1, "pos": pos(h), "o": obj(), "n": rng.randrange(0, NN + 1)}})
+                f = fail()
+                beh.append({"a": op, "arg": {"h": h + 1, "pos": pos(h), "o": obj(), "n": name(f), "f": f}})
             elif op == "ielem":
                 beh.append({"a": op, "arg": {"h": h + 1, "pos": max(0, pos(h)), "o": obj()}})
             elif op in ("icompact", "count"):
@@ -266,14 +293,15 @@ def gen_history(rng, kind, steps):
                 beh.append({"a": op, "arg": {"h": h + 1, "len": rng.choice([-1, 0, 1, 3, 9])}})
             elif op == "resize":
                 k = rng.choice([0, 1, est[h], max(0, est[h] - 1), est[h] + 2, rng.randrange(0, 12)])
-                beh.append({"a": op, "arg": {"h": h + 1, "len": k}})
+                beh.append({"a": op, "arg": {"h": h + 1, "len": k, "f": fail()}})
                 est[h] = k
             else:
                 beh.append({"a": op, "arg": {"h": h + 1, "len": rng.choice([-1, -2, 0, est[h], est[h] + 3, 9])}})
         elif kind == "group":
             op = rng.choice(["gappend"] * 4 + ["gadd"] * 2 + ["gclear"] * 3)
             if op in ("gappend", "gadd"):
-                beh.append({"a": op, "arg": {"h": h + 1, "o": rng.randrange(1, NO + 1), "n": rng.randrange(0, NN + 1)}})
+                f = fail()
+                beh.append({"a": op, "arg": {"h": h + 1, "o": rng.randrange(1, NO + 1), "n": name(f), "f": f}})
                 est[h] += 1
             else:
                 beh.append({"a": op, "arg": {"h": h + 1, "o": rng.randrange(1, NO + 1)}})
